@@ -46,6 +46,7 @@ def run(ctx, run):
     _cursors(ctx, run)
     _continuity(ctx, run, P.need("demux_ts_packet", UNIT))
     _frame_reset(ctx, run)
+    _reset_complete(ctx, run, fs)
 
 
 def _underflow(ctx, run, f):
@@ -423,3 +424,38 @@ def _from_call(f, operand, callee):
                 if r["k"] == "call" and r.get("callee") == callee:
                     return True
     return False
+
+
+def _reset_complete(ctx, run, fs):
+    """RF-INIT: every field of the frame state that the per-packet code (line_address,
+    extract_data_units, demux_samples ...) writes is written by reset_frame() too - a field that
+    survives the reset carries the previous frame into the next one (line_address() takes
+    last_data_unit_id == 0 as 'no line seen yet')."""
+    writers = {}
+    for f in fs:
+        for bid, i in flow.all_events(f):
+            for lhs, var, op, rhs in flow.stores(f, i):
+                if lhs is None:
+                    continue
+                l = f.exprs[ex.skip(f, lhs)]
+                while l["k"] == "idx":
+                    l = f.exprs[ex.skip(f, l["c"][0])]
+                if l["k"] == "mem" and l.get("in") == "frame":
+                    writers.setdefault(l["member"], set()).add(f.name)
+    config = {fld for fld, ws in writers.items() if fld in ("sliced_begin", "sliced_end", "raw", "raw_start", "raw_count", "log")}
+    reset = {fld for fld, ws in writers.items() if "reset_frame" in ws}
+    if not reset:
+        raise AnalysisBroken("reset_frame writes no frame field (anchor vanished)")
+    dynamic = {fld for fld, ws in writers.items() if fld not in config and (ws - {"reset_frame", "vbi_dvb_demux_reset", "_vbi_dvb_demultiplex_sliced"})}
+    run.floor("frame fields written by the per-packet code", len(dynamic), 6)
+    rf = [f for f in fs if f.name == "reset_frame"][0]
+    for fld in sorted(dynamic):
+        key = "RF-INIT:reset_frame:%s" % fld
+        if fld in reset:
+            run.holds("RF-INIT", key, "frame.%s (written by %s) is reset by reset_frame()" % (fld, ", ".join(sorted(writers[fld] - {"reset_frame"}))),
+                      "%s:%d" % (rf.file, rf.line), nontrivial=False)
+        else:
+            run.violation("RF-INIT", key, "frame.%s is written by %s but not by reset_frame(): the value of the previous frame decides "
+                          "how the first data unit of the next frame is classified (new frame / same frame), so the output depends on "
+                          "more than the bytes of that frame - with last_data_unit_id the demultiplexer reports empty frames forever"
+                          % (fld, ", ".join(sorted(writers[fld]))), "%s:%d" % (rf.file, rf.line), witness={"field": fld})
